@@ -160,9 +160,35 @@ type fakeNode struct {
 	c               *chain
 	sh              *cmttypes.SignedHeader
 	queries         int
+
+	// live mode: the node's latest block is `latest`; after the advanceAfter-th RPC call of the request
+	// (Commit and ABCI queries both count) the next block arrives and latest becomes latest+1.
+	live         bool
+	latest       int64
+	advanceAfter int
+	calls        int
+	headerAt     func(h int64) *cmttypes.SignedHeader
+}
+
+func (n *fakeNode) tick() {
+	n.calls++
+	if n.live && n.calls == n.advanceAfter {
+		n.latest++
+	}
 }
 
 func (n *fakeNode) Commit(_ context.Context, height *int64) (*coretypes.ResultCommit, error) {
+	if n.live {
+		defer n.tick()
+		h := n.latest
+		if height != nil {
+			h = *height
+		}
+		if h > n.latest || h < 3 {
+			return nil, fmt.Errorf("fake node: height %d is not available (latest %d)", h, n.latest)
+		}
+		return &coretypes.ResultCommit{SignedHeader: *n.headerAt(h), CanonicalCommit: true}, nil
+	}
 	if height != nil && *height != n.sh.Height {
 		return nil, fmt.Errorf("fake node: height %d is not available (serving %d)", *height, n.sh.Height)
 	}
@@ -171,6 +197,12 @@ func (n *fakeNode) Commit(_ context.Context, height *int64) (*coretypes.ResultCo
 
 func (n *fakeNode) ABCIQueryWithOptions(ctx context.Context, path string, data cmtbytes.HexBytes, opts rpcclient.ABCIQueryOptions) (*coretypes.ResultABCIQuery, error) {
 	n.queries++
+	if n.live {
+		defer n.tick()
+		if opts.Height > n.latest {
+			return nil, fmt.Errorf("fake node: state %d is not available (latest %d)", opts.Height, n.latest)
+		}
+	}
 	resp, err := n.c.w.App.Query(ctx, &abci.RequestQuery{Path: path, Data: data, Height: opts.Height, Prove: opts.Prove})
 	if err != nil {
 		return nil, err
